@@ -364,10 +364,25 @@ def splice(caller_j, call_bb, callee_j, mode, cont=None, result_local=None, upva
                     ap = st["rv"]["a"].get("m") or st["rv"]["a"].get("c")
                     if ap and len(ap) == 2 and ap[0] == 1 and isinstance(ap[1], str) and ap[1].startswith("f:"):
                         param_locals.add(st["lhs"][0])
+    # ... except a parameter the callee itself changes (`mut head: &[u8]` used as a cursor, a reassigned accumulator): that is a variable
+    # of the callee in its own right, exactly like the `let mut head = ..` it replaces when a block is extracted into a helper
+    mutated = set()
+    for b in callee_j["blocks"]:
+        for st in b.get("stmts", []):
+            if st.get("k") != "assign":
+                continue
+            rv = st["rv"]
+            if rv.get("k") in ("ref", "rawptr") and rv.get("mut") and not rv.get("fake") and rv.get("p") and len(rv["p"]) == 1:
+                mutated.add(rv["p"][0])
+            if len(st.get("lhs", [])) == 1:
+                mutated.add(("w", st["lhs"][0]))
     for i, l in enumerate(callee_j["locals"]):
         nl = dict(l, inlined=True)
         if i in param_locals and "name" in nl:
-            nl["param_name"] = nl.pop("name")
+            if mode in ("sync", "closure") and (i in mutated or ("w", i) in mutated):
+                pass
+            else:
+                nl["param_name"] = nl.pop("name")
         locals_.append(nl)
     call_t = blocks[call_bb]["term"]
     args = call_t.get("args", [])
@@ -495,12 +510,19 @@ def _return_sites(callee_j):
         cur = start
         for _ in range(8):
             tt = blocks[cur].get("term") or {}
-            if tt.get("k") == "goto" and tt.get("t") in rets:
+            if tt.get("k") in ("goto", "drop") and tt.get("t") in rets and (tt.get("k") == "goto" or not blocks[tt["t"]].get("stmts")):
                 sites.append((cur, var))
                 break
             if tt.get("k") in ("goto", "drop") and "t" in tt:
                 nxt = tt["t"]
-                if npred.get(nxt, 0) != 1 or any(st.get("k") == "assign" and st.get("lhs") == [0] for st in blocks[nxt].get("stmts", [])):
+                if npred.get(nxt, 0) != 1:
+                    # an empty join block in front of the return, shared with the other variant's path: this block is still the last
+                    # one that belongs to this variant alone
+                    nt = blocks[nxt].get("term") or {}
+                    if not blocks[nxt].get("stmts") and nt.get("k") == "goto" and nt.get("t") in rets:
+                        sites.append((cur, var))
+                    break
+                if any(st.get("k") == "assign" and st.get("lhs") == [0] for st in blocks[nxt].get("stmts", [])):
                     break
                 cur = nxt
                 continue
@@ -515,7 +537,7 @@ def _thread_try(blocks, callee_j, B0, L0, Lb, res_local, cont_entry, sp):
     b = cont_entry
     pre = []
     T = None
-    for _ in range(6):
+    for _ in range(10):
         blk = blocks[b]
         t = blk.get("term") or {}
         if any(st.get("k") == "assign" and st["rv"].get("k") != "use" for st in blk.get("stmts", [])):
@@ -524,7 +546,7 @@ def _thread_try(blocks, callee_j, B0, L0, Lb, res_local, cont_entry, sp):
         if t.get("k") == "call" and str((t.get("f") or {}).get("path", "")).endswith("ops::try_trait::Try::branch"):
             T = b
             break
-        if t.get("k") == "goto":
+        if t.get("k") == "goto" or (t.get("k") == "drop" and "t" in t):
             b = t["t"]
             continue
         return
@@ -562,9 +584,21 @@ def _thread_try(blocks, callee_j, B0, L0, Lb, res_local, cont_entry, sp):
         return
     for (cb_, var) in _return_sites(callee_j):
         mb = B0 + cb_
+        # a copy of the way from the landing to the `?` (its moves, and the drops of the awaited future on the way), block by block
         stmts = [{"k": "assign", "lhs": [res_local], "rv": {"k": "use", "a": {"m": [L0]}}, "sp": sp}]
+        first_nb = None
+        prev_term = None
         for pb in pre:
-            stmts += [st for st in blocks[pb].get("stmts", []) if st.get("k") == "assign"]
+            stmts += [copy.deepcopy(st) for st in blocks[pb].get("stmts", []) if st.get("k") == "assign"]
+            pt = blocks[pb].get("term") or {}
+            if pt.get("k") == "drop" and pb != T:
+                blocks.append({"stmts": stmts, "term": {"k": "drop", "p": copy.deepcopy(pt.get("p")), "t": None}, "sp": sp, "inlined": True})
+                if first_nb is None:
+                    first_nb = len(blocks) - 1
+                if prev_term is not None:
+                    prev_term["t"] = len(blocks) - 1
+                prev_term = blocks[-1]["term"]
+                stmts = []
         if var in ("Ok", "Some"):
             stmts.append({"k": "assign", "lhs": [BR], "rv": {"k": "agg", "ak": "adt", "def": "core::ops::control_flow::ControlFlow", "variant": "Continue",
                                                            "fields": ["0"], "ops": [{"m": [a, "d:" + var, "f:0"]}]}, "sp": sp})
@@ -574,9 +608,11 @@ def _thread_try(blocks, callee_j, B0, L0, Lb, res_local, cont_entry, sp):
                                                            "fields": ["0"], "ops": [{"m": [a]}]}, "sp": sp})
             target = brk_t
         blocks.append({"stmts": stmts, "term": {"k": "goto", "t": target}, "sp": sp, "inlined": True})
-        nb = len(blocks) - 1
+        if prev_term is not None:
+            prev_term["t"] = len(blocks) - 1
+        nb = first_nb if first_nb is not None else len(blocks) - 1
         mt = blocks[mb].get("term") or {}
-        if mt.get("k") == "goto":
+        if mt.get("k") in ("goto", "drop") and "t" in mt:
             mt["t"] = nb
 
 
@@ -926,6 +962,7 @@ def thread_variants(prog, crate, j, limit=60):
                 if (si, R) in tried:
                     continue
                 names = {R}
+                moved = set()
                 refs = {}
                 chain = []
                 cur = st_["t"]
@@ -953,6 +990,9 @@ def thread_variants(prog, crate, j, limit=60):
                             pl = rv["a"].get("m") or rv["a"].get("c")
                             if pl and len(pl) == 1 and pl[0] in nn:
                                 nn.add(st["lhs"][0])
+                                if rv["a"].get("m"):
+                                    moved.add(pl[0])          # moved out: a later drop of it is a no-op
+                                moved.discard(st["lhs"][0])
                                 continue
                         if len(st["lhs"]) == 1 and rv["k"] == "discr" and len(rv["p"]) == 1 and rv["p"][0] in nn:
                             dsc = (st["lhs"][0], rv["p"][0])
@@ -977,7 +1017,7 @@ def thread_variants(prog, crate, j, limit=60):
                         if a and len(a) == 1 and a[0] in refs:
                             test = ("pred:" + (pm.group(2) or pm.group(3)), cur, refs[a[0]])
                         break
-                    if t.get("k") == "goto" or (t.get("k") == "drop" and t.get("p") and t["p"][0] not in nn) or \
+                    if t.get("k") == "goto" or (t.get("k") == "drop" and t.get("p") and (t["p"][0] not in nn or (t["p"][0] in moved and len(t["p"]) == 1))) or \
                             (t.get("k") == "call" and t.get("inlined") and t.get("inlined") != "skipped" and "t" in t and not t.get("dest")):
                         chain.append(cur)
                         names = nn
